@@ -299,12 +299,43 @@ pub fn c06(ctx: &Ctx) -> (CheckMeta, Outcome) {
         v.property = "C06".into();
     }
     out.merge(o2);
+    // (3) the same through the dispatch objects (Codes, FuncCodeReader/Writer, factories, ConstCode,
+    // the statistics wrapper): bits reported by a dispatched write, bits consumed by a dispatched read
+    {
+        let mut cfgs = vec![];
+        for e in End::BOTH {
+            for o in [0usize, 5] {
+                cfgs.push(StreamCfg { e, wbits: 64, offset: o, readers: vec![("buf32", "memzx"), ("unbuf", "memstrict")], with_disp: true, all_read_variants: true });
+            }
+        }
+        let disp_codes: Vec<Code> = all.iter().copied().filter(|c| crate::disp::codes_of(*c).is_some()).collect();
+        let (dc, dr) = if ctx.thorough { (4096, 512) } else { (512, 128) };
+        let mut items = items_for(&disp_codes, dc, dr, ctx.seed, 2, false);
+        // dispatched writes as well: one extra item per (code, small value) for every write variant
+        for &c in &disp_codes {
+            let nv = crate::streams::write_variants(c, 0).len() as u8;
+            for v in [0u64, 1, 5, 6, 7, 8, 11, 23, 64, 1000] {
+                if !in_domain(c, v) {
+                    continue;
+                }
+                for wvar in 0..nv {
+                    items.push(Item { code: c, v, wvar, follow: 0xFFFF });
+                }
+            }
+        }
+        let mut o3 = run_streams(cfgs, std::sync::Arc::new(items), ctx, &["C10"]);
+        o3.violations.retain(|v| v.symptom == "position" || v.symptom == "length");
+        for v in o3.violations.iter_mut() {
+            v.property = "C06".into();
+        }
+        out.merge(o3);
+    }
     // bits consumed by a read whose codeword ends with the last bit of a strict stream
     out.merge(crate::props::readers::tail_exact("C06", ctx));
     let meta = CheckMeta {
         property: "C06".into(),
         level: "exploration".into(),
-        rule: "bounded-exhaustive: (1) every library length function (len_*, len_*_param with tables on/off, byte_len_vbyte, Codes::len, FuncCodeLen, ConstCode::len) vs the reference codeword length for all codes/parameters, all values below 2^20 (2^22 thorough) for core codes, below 2^10 otherwise, every 2^i+-2, every code-specific step point, domain maxima, seeded extras (no codeword-length restriction); (2) streams as in C03: value returned by write_*, growth of the real stream and bit_pos advance of every read variant, also for codewords that end with the last bit of a strict stream; non-trivial = value at which the reference length steps, or value > 2^32".into(),
+        rule: "bounded-exhaustive: (1) every library length function (len_*, len_*_param with tables on/off, byte_len_vbyte, Codes::len, FuncCodeLen, ConstCode::len) vs the reference codeword length for all codes/parameters, all values below 2^20 (2^22 thorough) for core codes, below 2^10 otherwise, every 2^i+-2, every code-specific step point, domain maxima, seeded extras (no codeword-length restriction); (2) streams as in C03: value returned by write_*, growth of the real stream and bit_pos advance of every read variant, also for codewords that end with the last bit of a strict stream; (3) the same streams written and read through every dispatch mechanism (Codes dynamic/static, FuncCodeReader/Writer, factory readers, ConstCode, the statistics wrapper): returned lengths and bits consumed; non-trivial = value at which the reference length steps, or value > 2^32".into(),
         assumptions: vec!["reference length = length of the reference codeword (harness/src/model.rs)".into()],
     };
     (meta, out)
